@@ -228,8 +228,18 @@ func (f *frame) contractCallEnv(ct *Contract, key string, fn *ssa.Function, extr
 		if !ok || pp.Kind == "global" || fn == nil || i >= len(fn.Params) {
 			continue
 		}
-		if _, isPtr := fn.Params[i].Type().Underlying().(*types.Pointer); !isPtr {
+		ptrT, isPtr := fn.Params[i].Type().Underlying().(*types.Pointer)
+		if !isPtr {
 			continue
+		}
+		if nt, ok := ptrT.Elem().(*types.Named); ok && ct.Trusted && nt.Obj().Pkg() != nil && nt.Obj().Pkg().Path() == "sync" && pp.Kind == "field" {
+			// a lock embedded in a struct: the callee's contract only talks about ghost state of the lock, which
+			// is keyed by a stable identity derived from the enclosing object and the field (negative, so that
+			// it can never coincide with an object reference)
+			if b, ok := pp.Base.(Term); ok {
+				args[i] = Term{fmt.Sprintf("(- 0 (+ (* %s 64) %d))", b.S, pp.Field+1), &Sort{K: KRef, Go: fn.Params[i].Type()}}
+				continue
+			}
 		}
 		box := u.alloc(f.cur, fn.Params[i].Type())
 		u.store(f.cur, box, u.load(f.cur, pp))
